@@ -202,11 +202,14 @@ def run(ctx):
                 tg, v = n.target.id, n.value
             if tg is None:
                 continue
-            if (isinstance(v, ast.Call) and call_name(v) == 'pop' and norm(v.func.value) == 'stack') or \
+            if (isinstance(v, ast.Call) and call_name(v) == 'pop' and isinstance(v.func, ast.Attribute) and isinstance(v.func.value, ast.Name) and not v.args) or \
                     (isinstance(v, ast.Attribute) and v.attr in ('f', 'a') and isinstance(v.value, ast.Name)):
                 maybe_none.add(tg)
-        if not {'ast', 'fst_'} <= maybe_none:
-            raise AnalysisError(f'walk(): expected locals ast / fst_ bound from stack.pop() / .f / .a (found {sorted(maybe_none)})')
+        popped = {n.targets[0].id for n in walk_no_nested(fn) if isinstance(n, ast.Assign) and isinstance(n.targets[0], ast.Name) and
+                  isinstance(n.value, ast.Call) and call_name(n.value) == 'pop'} | \
+            {n.target.id for n in walk_no_nested(fn) if isinstance(n, ast.NamedExpr) and isinstance(n.value, ast.Call) and call_name(n.value) == 'pop'}
+        if not (popped & maybe_none) or len(maybe_none) < 2:
+            raise AnalysisError(f'walk(): expected a local popped off the walk stack and one bound from its .f / .a link (found {sorted(maybe_none)})')
         fl = ConstFlow(cfg, {}, None, keep_names=maybe_none)
         # facts: after `x = stack.pop()` x is unknown (no fact); attribute access requires a TRUTHY / NOTNONE fact on every disjunct.
         # `self` derived values (`ast = self.a` at entry) are checked the same way.
